@@ -550,6 +550,9 @@ func (h *c16hSrv) run(out *vfOut, hist *c16hHist, classes []string) (ok bool) {
 		}
 		coq = append(coq, c16hCoqReq(q))
 		cl["hist-"+q.Kind] = true
+		if !c16Printable(q.SNI) || strings.Contains(q.Path, "%") {
+			cl["hist-nonascii-label"] = true
+		}
 		switch {
 		case !q.Called:
 			cl["hist-refused"] = true
@@ -639,6 +642,12 @@ func c16hName(r *vfRand, host string, strict bool) (name, want, kind string) {
 		}
 		return "a." + c16hLabel(r) + "." + host, "", "subsub"
 	case 8:
+		if r.Bool() {
+			// no label as sent; strings.ToLower would make one of it.  (A strict
+			// handshake lets it pass under a wildcard name of the certificate:
+			// the gate looks at the IDNA form, the comparison at the bytes.)
+			return vfPick(r, []string{"\u212aate", "bloc\u212a", "\u0130van", "m\u0130\u212ae", "\u212a"}) + "." + host, "!", "nonascii-label"
+		}
 		if strict {
 			// a strict handshake refuses a name that is no host name: no request
 			l := c16hLabel(r)
@@ -668,6 +677,16 @@ func c16hGenReq(r *vfRand, host string, strict bool, quic bool) *c16hReq {
 	switch q.kind {
 	case c16hDoHTLS, c16hDoHPlain:
 		q.Host = vfPick(r, []string{q.SNI, "victim." + q.SNI, "other.test", q.SNI + ":443"})
+		if q.nameKind == "nonascii-label" {
+			// net/http's client rewrites a Host header with bytes outside ASCII
+			// (IDNA) and its server refuses one: the name goes in the TLS
+			// handshake only
+			q.Host = "other.test"
+			if q.kind == c16hDoHPlain {
+				q.kind = c16hDoHTLS
+				q.Kind = c16hKindNames[q.kind]
+			}
+		}
 		if q.kind == c16hDoHPlain {
 			// the name comes from the Host header here
 			q.Host = q.SNI
@@ -687,7 +706,8 @@ func c16hGenReq(r *vfRand, host string, strict bool, quic bool) *c16hReq {
 			// a path id wins over the name, which is then not looked at
 			q.Want = strings.ToLower(l)
 		case 6:
-			q.Path, q.Want, q.pathKind = vfPick(r, []string{"/dns-query/a/b", "/DNS-Query/" + c16hLabel(r), "/x/dns-query"}), "!", "extra-or-route"
+			q.Path, q.Want, q.pathKind = vfPick(r, []string{"/dns-query/a/b", "/DNS-Query/" + c16hLabel(r), "/x/dns-query",
+				"/dns-query/%E2%84%AAate", "/dns-query/m%C4%B0ke"}), "!", "extra-or-route"
 		default:
 			q.Path, q.Want, q.pathKind = "/dns-query/bad!id", "!", "bad-label"
 		}
@@ -788,6 +808,21 @@ func c16hPrelude() (hs []*c16hHist) {
 		c16hMk(c16hUDP, "", "", "", "", ""),
 		c16hMk(c16hDoQ, "Carol."+H, "", "", "", "carol"),
 		c16hMk(c16hDNSCrypt, "", "", "", "", ""),
+	}})
+	// labels that only a Unicode lower-casing would turn into labels: over real
+	// DoT / DoQ / DoH handshakes and in a percent-encoded DoH path
+	hs = append(hs, &c16hHist{Host0: H, Steps: []*c16hStep{
+		c16hMk(c16hDoT, "\u212aate."+H, "", "", "", "!"),
+		c16hMk(c16hDoT, "kate."+H, "", "", "", "kate"),
+		c16hMk(c16hDoQ, "bloc\u212a."+H, "", "", "", "!"),
+		c16hMk(c16hDoHTLS, "\u0130van."+H, "/dns-query", H, "", "!"),
+		c16hMk(c16hDoHTLS, H, "/dns-query/%E2%84%AAate", H, "", "!"),
+		c16hMk(c16hDoHTLS, H, "/dns-query/Kate", H, "", "kate"),
+		c16hRe(H, true, true),
+		c16hMk(c16hUDP, "", "", "", "", ""),
+		c16hMk(c16hDoT, "\u212a."+H, "", "", "", "!"),
+		c16hMk(c16hDoQ, "\u212aate."+H, "", "", "", "!"),
+		c16hMk(c16hDoT, "Kate."+H, "", "", "", "kate"),
 	}})
 	// no name configured: no ClientID from any server name, before or after
 	hs = append(hs, &c16hHist{Host0: "", Steps: []*c16hStep{
